@@ -66,6 +66,7 @@ class DScn:
     sets: list = field(default_factory=list)               # state indices assigned to current_state_value
     via: str = "graph"               # instances observed through sm._graph() or DotGraphMachine(sm)()
     rtc: bool = True
+    subclass: bool = False           # observe through an empty subclass `class Sub(M): pass`
 
 
 def to_json(s: DScn) -> str:
@@ -339,4 +340,5 @@ def gen_scenario(rng: random.Random, name: str, ids=None) -> DScn:
     rng.shuffle(s.sets)
     s.via = rng.choice(["graph", "dot"])
     s.rtc = rng.random() < 0.8
+    s.subclass = rng.random() < 0.15
     return s
